@@ -169,6 +169,7 @@ type Peer struct {
 	Reader shipapi.ShipConnectionDataReaderInterface
 	ctr    uint64
 	Ents   []EntSpec
+	Gone bool // the connection was removed
 	// DiscoveryRef is the counter of the stack's initial discovery read.
 	DiscoveryRef *model.MsgCounterType
 }
@@ -182,6 +183,28 @@ func (w *World) Connect(ski, addr string) *Peer {
 		p.DiscoveryRef = msgs[0].D.Header.MsgCounter
 	}
 	w.Peers = append(w.Peers, p)
+	return p
+}
+
+// Disconnect removes the peer's connection through the public API (the Peer object stays in
+// w.Peers so that its writer can still be observed).
+func (w *World) Disconnect(p *Peer) {
+	w.Local.RemoveRemoteDeviceConnection(p.Ski)
+	p.Gone = true
+	w.Sync()
+}
+
+// Reconnect sets the same device (same SKI and address) up again on a new connection and
+// announces ents. The returned Peer replaces the old one in w.Peers.
+func (w *World) Reconnect(old *Peer, ents []EntSpec) *Peer {
+	p := &Peer{W: w, Idx: old.Idx, Ski: old.Ski, Addr: old.Addr, Cap: &Capture{}, ctr: old.ctr + 500}
+	p.Reader = w.Local.SetupRemoteDevice(p.Ski, p.Cap)
+	p.Dev = w.Local.RemoteDeviceForSki(p.Ski)
+	if msgs := p.Cap.All(); len(msgs) > 0 {
+		p.DiscoveryRef = msgs[0].D.Header.MsgCounter
+	}
+	w.Peers[old.Idx] = p
+	p.Announce(ents)
 	return p
 }
 
